@@ -88,21 +88,21 @@ Proof.
 Qed.
 
 (* ---------- small constants and short slot opcodes: the facts needed about each, by enumeration ---------- *)
-Lemma small_range z : (-1 <=? z) && (z <=? 16) = true -> exists m, (m < 18)%nat /\ z = Z.of_nat m - 1.
+Lemma small_range z : (-1 <=? z) && (z <=? 15) = true -> exists m, (m < 17)%nat /\ z = Z.of_nat m - 1.
 Proof. intros H. exists (Z.to_nat (z + 1)). lia. Qed.
 
 Ltac small_cases H :=
   apply small_range in H; let m := fresh "m" in let Hm := fresh "Hm" in
   destruct H as (m & Hm & ->);
-  do 18 (destruct m as [|m]; [try reflexivity; try (cbv; congruence)|]); exfalso; lia.
+  do 17 (destruct m as [|m]; [try reflexivity; try (cbv; congruence)|]); exfalso; lia.
 
-Lemma small_push_operand z : (-1 <=? z) && (z <=? 16) = true -> operand_of (small_push z) = Fixed 0.
+Lemma small_push_operand z : (-1 <=? z) && (z <=? 15) = true -> operand_of (small_push z) = Fixed 0.
 Proof. intros H. small_cases H. Qed.
-Lemma small_push_ctrl z : (-1 <=? z) && (z <=? 16) = true -> is_ctrl (small_push z) = false.
+Lemma small_push_ctrl z : (-1 <=? z) && (z <=? 15) = true -> is_ctrl (small_push z) = false.
 Proof. intros H. small_cases H. Qed.
-Lemma small_push_coeff z : (-1 <=? z) && (z <=? 16) = true -> opcode_coeff (small_push z) = 1.
+Lemma small_push_coeff z : (-1 <=? z) && (z <=? 15) = true -> opcode_coeff (small_push z) = 1.
 Proof. intros H. small_cases H. Qed.
-Lemma small_push_exec z e p d : (-1 <=? z) && (z <=? 16) = true ->
+Lemma small_push_exec z e p d : (-1 <=? z) && (z <=? 15) = true ->
   exec_data_opt e (small_push z) p d = okd (Data.push_int z d).
 Proof. intros H. small_cases H. Qed.
 
